@@ -6,7 +6,7 @@ From WP Require Import Base.Prelude Base.Decimal Model.Cbor Model.Http Model.Url
 From WP Require Import Spec.Cbor Spec.Bundle.
 From WP Require Import Proofs.BaseLemmas Proofs.CborHead Proofs.CborMap Proofs.CborDecode Proofs.CborUtf8
   Proofs.Variants Proofs.BundleWriteBasics Proofs.BundleWriteSpec Proofs.BundleWriteSig
-  Proofs.BundleWriteForm Proofs.BundleWriteWF Proofs.BundleWriteCases Proofs.BundleRows
+  Proofs.BundleWriteForm Proofs.BundleWriteWF Proofs.BundleWriteCases Proofs.BundleRoundtripRows
   Proofs.BundleRoundtripResp Proofs.BundleRoundtripMeta Proofs.BundleRoundtripRead
   Proofs.BundleRoundtripSig Proofs.BundleRoundtrip.
 Open Scope N_scope.
@@ -206,5 +206,89 @@ Section Final.
       rewrite (g_groups_map fst urlZ bx_url) in Er by reflexivity.
       rewrite (g_rows_map fst vvZ vkZ hv_variants hv_vkey) in Er by (intros; split; reflexivity).
       rewrite Etz in Er. discriminate.
+  Qed.
+
+  (* ---- incomplete or overlapping variant coverage is refused at write time ------------------------- *)
+  Lemma group_url_utf8 (b : bundle) (u : bytes) (es : list ientry) :
+    urls_utf8 b -> In (u, es) (groups_of (ients_of b)) -> utf8_valid u = true.
+  Proof.
+    intros U Hg. apply groups_of_in in Hg. destruct Hg as [_ [_ Hu]]. unfold ients_of in Hu.
+    rewrite mk_ients_urls in Hu. apply in_map_iff in Hu. destruct Hu as [x [E Hx]]. subst u.
+    unfold urls_utf8 in U. rewrite Forall_forall in U. apply U. exact Hx.
+  Qed.
+
+  Theorem variants_refused (b : bundle) (u : bytes) (es : list ientry) :
+    b_ver b = BV1 -> headers_ok b = true -> urls_utf8 b ->
+    In (u, es) (groups_of (ients_of b)) -> (2 <= List.length es)%nat ->
+    entries_in_possible_key_order (ventries es) = Err ->
+    b_write b = Err.
+  Proof.
+    intros V Hh U Hg Hl He. rewrite b_write_eq. unfold b_write_nf. rewrite Hh. cbn [chk bind].
+    assert (Hne : es <> []) by (intros ->; cbn in Hl; lia).
+    assert (Ebad : index_entry_pre (b_ver b) (u, es) = Err).
+    { apply index_entry_pre_err_iff; [exact Hne|]. right. split; [exact V|]. split; [eapply group_url_utf8; eassumption|].
+      split; [exact Hl|exact He]. }
+    destruct (index_pres_cases (b_ver b) (groups_of (ients_of b))) as [[ts [_ F]]|[[Ht _]|[[_ B]|[_ B]]]].
+    - exfalso. rewrite Forall_forall in F. specialize (F _ Hg). rewrite Ebad in F. discriminate.
+    - rewrite Ht. reflexivity.
+    - exfalso. destruct B as [g1 [[u' es'] [g2 [Eg [_ Eb]]]]].
+      assert (Hg' : In (u', es') (groups_of (ients_of b))) by (rewrite Eg; apply in_or_app; right; left; reflexivity).
+      apply index_entry_pre_panic_iff in Eb; [|apply (groups_nonempty _ _ _ Hg')].
+      destruct Eb as [Eb _]. rewrite (group_url_utf8 b u' es' U Hg') in Eb. discriminate.
+    - exfalso. destruct B as [g1 [[u' es'] [g2 [Eg [_ Eb]]]]].
+      assert (Hg' : In (u', es') (groups_of (ients_of b))) by (rewrite Eg; apply in_or_app; right; left; reflexivity).
+      apply (index_entry_pre_no_fuel (b_ver b) u' es'); [apply (groups_nonempty _ _ _ Hg')|exact Eb].
+  Qed.
+
+  (* the declarative conditions: some index claimed twice, or some index not claimed *)
+  Theorem incomplete_or_overlapping_refused (b : bundle) (u : bytes) (es : list ientry)
+          (v0 : bytes) (v : variants) (n : N) (pl : list (N * ientry)) :
+    b_ver b = BV1 -> headers_ok b = true -> urls_utf8 b ->
+    In (u, es) (groups_of (ients_of b)) -> (2 <= List.length es)%nat ->
+    hd_error (map ie_variants es) = Some v0 ->
+    parse_list_of_string_lists v0 = Ok v -> num_possible_keys v = Ok n ->
+    placements v (ventries es) = Some pl ->
+    (~ NoDup (map fst pl) \/ exists i, i < n /\ ~ In i (map fst pl)) ->
+    b_write b = Err.
+  Proof.
+    intros V Hh U Hg Hl Hd Pv Pn Pl Bad. apply (variants_refused b u es V Hh U Hg Hl).
+    assert (Hd' : hd_error (map (fun e : bytes * bytes * ientry => fst (fst e)) (ventries es)) = Some v0).
+    { unfold ventries. rewrite map_map. exact Hd. }
+    destruct Bad as [Ov|[i [Hi Ni]]].
+    - eapply overlap_refused; eassumption.
+    - eapply incomplete_refused; eassumption.
+  Qed.
+
+  (* ---- nothing lost, also with b1 variant sets ---------------------------------------------------------- *)
+  (* every exchange carries exactly one Variant-Key (only looked at for URLs with
+     several exchanges; stated for all for simplicity of the hypothesis) *)
+  Definition single_keys (b : bundle) : Prop :=
+    Forall (fun x => exists k, parse_list_of_string_lists (hv_vkey x) = Ok [k]) (b_exchanges b).
+
+  Lemma Forall2_flat_perm {A C B} (f : A -> list B) (g : C -> list B) (P : A -> C -> Prop)
+        (l : list A) (l' : list C) :
+    Forall2 P l l' -> (forall a c, In a l -> P a c -> Permutation (g c) (f a)) ->
+    Permutation (flat_map g l') (flat_map f l).
+  Proof.
+    induction 1 as [|a c l l' Hp F IH]; intros H; [constructor|]. cbn [flat_map].
+    apply Permutation_app; [apply (H a c); [left; reflexivity|exact Hp]|].
+    apply IH. intros a' c' Ha' Hp'. apply (H a' c'); [right; exact Ha'|exact Hp'].
+  Qed.
+
+  Theorem nothing_lost (b : bundle) (bs : bytes) :
+    b_write b = Ok bs -> single_keys b ->
+    Permutation (map xnorm (b_exchanges b)) (b_exchanges (norm b)).
+  Proof.
+    intros Hw S. destruct (norm_rows_spec b bs Hw) as [rows [_ [En F2]]]. rewrite En.
+    rewrite <- map_flat_map. apply Permutation_map.
+    eapply perm_trans; [apply Permutation_sym, (g_groups_partition bx_url (b_exchanges b))|].
+    eapply perm_trans.
+    2:{ apply Permutation_sym. change (fun r : bytes * bytes * list bexchange => snd r) with (@snd (bytes * bytes) (list bexchange)).
+        apply Permutation_flat_map. apply isort_perm. }
+    apply Permutation_sym.
+    apply (Forall2_flat_perm (@snd bytes (list bexchange)) (@snd (bytes * bytes) (list bexchange)) _ _ _ F2).
+    intros [u es] r Hg Hr. cbn [snd]. apply (g_row_perm _ _ _ _ _ _ Hr).
+    apply Forall_forall. intros x Hx. unfold single_keys in S. rewrite Forall_forall in S. apply S.
+    apply (g_groups_members bx_url (b_exchanges b) (u, es) x Hg Hx).
   Qed.
 End Final.
